@@ -346,13 +346,21 @@ def _alt(spec, n, salt=""):
     return stable_hash(salt + repr(sorted((k, repr(v)) for k, v in spec.items() if k not in ("child", "children", "items", "rows", "root")))) % n
 
 
+def _rt(value):
+    """An option value as a program gets it at RUN TIME (read from a settings file, a command line, lower-cased ...):
+    equal to the literal, but not the interpreter's one shared object for it."""
+    if isinstance(value, str) and value:
+        return (value + "\0")[:-1]
+    return value
+
+
 def build(spec):
     """A fresh Rich renderable for the spec."""
     k = spec["k"]
     if k == "text":
         from rich.text import Text
-        return Text(spec["s"], style=spec.get("style") or "", justify=spec.get("justify"),
-                    overflow=spec.get("overflow"), no_wrap=spec.get("no_wrap"), tab_size=spec.get("tab_size", 8))
+        return Text(spec["s"], style=spec.get("style") or "", justify=_rt(spec.get("justify")),
+                    overflow=_rt(spec.get("overflow")), no_wrap=spec.get("no_wrap"), tab_size=spec.get("tab_size", 8))
     if k == "rule":
         from rich.rule import Rule
         return Rule(spec["title"], characters=spec["characters"], align=spec["align"], **spec.get("decor", {}))
@@ -440,7 +448,7 @@ def build(spec):
 
 def _add_late_column(t, late):
     c = late["column"]
-    t.add_column(build(c["header"]), build(c["footer"]), justify=c["justify"], overflow=c["overflow"],
+    t.add_column(build(c["header"]), build(c["footer"]), justify=_rt(c["justify"]), overflow=_rt(c["overflow"]),
                  ratio=c["ratio"], max_width=c["max_width"], width=c["width"], min_width=c["min_width"],
                  no_wrap=c["no_wrap"], style=c.get("style"))
 
@@ -468,7 +476,7 @@ def build_table(spec):
                   expand=spec["expand"], show_header=spec["show_header"], show_footer=spec["show_footer"],
                   show_edge=spec["show_edge"], show_lines=spec["show_lines"], leading=spec["leading"],
                   row_styles=spec["row_styles"], style=spec.get("style", "none"), **spec.get("decor", {}))
-        cols = [Column(build(c["header"]), build(c["footer"]), justify=c["justify"], overflow=c["overflow"],
+        cols = [Column(build(c["header"]), build(c["footer"]), justify=_rt(c["justify"]), overflow=_rt(c["overflow"]),
                        ratio=c["ratio"], max_width=c["max_width"], width=c["width"], min_width=c["min_width"],
                        no_wrap=c["no_wrap"], style=c.get("style") or "") for c in spec["columns"]]
         if _alt(spec, 3, salt="cols-reused") == 0:
@@ -490,7 +498,7 @@ def build_table(spec):
         t.padding = (3, 3, 3, 3)
         t.padding = spec["padding"]
     for c in spec["columns"][:declared]:
-        t.add_column(build(c["header"]), build(c["footer"]), justify=c["justify"], overflow=c["overflow"],
+        t.add_column(build(c["header"]), build(c["footer"]), justify=_rt(c["justify"]), overflow=_rt(c["overflow"]),
                      ratio=c["ratio"], max_width=c["max_width"], width=c["width"], min_width=c["min_width"],
                      no_wrap=c["no_wrap"], style=c.get("style"))
     for i, r in enumerate(spec["rows"]):
@@ -511,7 +519,7 @@ def build_table(spec):
         assert len(t.columns) == len(spec["columns"]), "generator: a ragged table must get all its columns from rows"
         for c, col in list(zip(spec["columns"], t.columns))[declared:]:
             col.header, col.footer = build(c["header"]), build(c["footer"])
-            col.justify, col.overflow, col.ratio, col.max_width = c["justify"], c["overflow"], c["ratio"], c["max_width"]
+            col.justify, col.overflow, col.ratio, col.max_width = _rt(c["justify"]), _rt(c["overflow"]), c["ratio"], c["max_width"]
             col.width, col.min_width, col.no_wrap = c["width"], c["min_width"], c["no_wrap"]
             if c.get("style"):
                 col.style = c["style"]
